@@ -492,7 +492,7 @@ def count_contiguous_subclusters(
     for i in range(nb_clusters):
         first_sc = sc_index if i == 0 else 0
         l2_entry = l2_table.entry(l2_index + i)
-        l2_bitmap = l2_table.entry(l2_index + i)
+        l2_bitmap = l2_table.bitmap(l2_index + i)
 
         sc_type, sc_count = get_subcluster_range_type(qcow2, l2_entry, l2_bitmap, first_sc)
 
